@@ -54,7 +54,7 @@ fn ctx_with_trace(trace: Arc<Mutex<Vec<String>>>) -> Context {
     let mk = |name: &'static str, tr: Arc<Mutex<Vec<String>>>, ret: fn(Vec<Value>) -> Result<Value, String>| {
         let f: Arc<dyn Fn(Vec<Value>) -> expression_engine::Result<Value> + Send + Sync> = Arc::new(move |params: Vec<Value>| {
             tr.lock().unwrap().push(format!("{}({})", name, params.iter().map(|p| format!("{:?}", p)).collect::<Vec<_>>().join(",")));
-            match ret(params) { Ok(v) => Ok(v), Err(_) => execute("1 +", create_context!()) }   // an Err of the crate's own error type
+            match ret(params) { Ok(v) => Ok(v), Err(prog) => execute(if prog.is_empty() { "1 +" } else { prog.as_str() }, create_context!()) }   // an Err of the crate's own error type
         });
         f
     };
@@ -63,6 +63,8 @@ fn ctx_with_trace(trace: Arc<Mutex<Vec<String>>>) -> Context {
     ctx.set_func("one", mk("one", trace.clone(), |_| Ok(Value::from(1))));
     ctx.set_func("two", mk("two", trace.clone(), |_| Ok(Value::from(2))));
     ctx.set_func("boom", mk("boom", trace.clone(), |_| Err(String::new())));
+    ctx.set_func("boomT", mk("boomT", trace.clone(), |_| Err("- true".to_string())));     // fails with ShouldBeNumber
+    ctx.set_func("boomP", mk("boomP", trace.clone(), |_| Err("1 / 0".to_string())));      // fails with ParamInvalid
     ctx.set_func("id", mk("id", trace.clone(), |p| Ok(p.into_iter().next().unwrap_or(Value::None))));
     ctx.set_func("cnt", mk("cnt", trace.clone(), |p| Ok(Value::from(p.len() as i64))));
     ctx
